@@ -3,6 +3,8 @@ package main
 import (
 	"fmt"
 	"go/types"
+	"os"
+	"runtime/debug"
 	"strings"
 
 	"golang.org/x/tools/go/ssa"
@@ -38,6 +40,9 @@ func (f *Frame) evalClause(cl *Clause, env map[string]Val, cur, old *State) Term
 		}
 	}()
 	v := f.eval(cl.E, &evalCtx{env: env, cur: cur, old: old})
+	if os.Getenv("WV_DEBUG") != "" {
+		fmt.Fprintf(os.Stderr, "clause %s => %s\n", cl.Text, trunc(v.T.S, 300))
+	}
 	if v.T.Sort != SBool {
 		f.fail("clause is not boolean (sort %s)", v.T.Sort)
 	}
@@ -105,6 +110,9 @@ func (f *Frame) eval(e Expr, c *evalCtx) Val {
 		return Val{T: Term{"nil", "nil"}}
 	case EIdent:
 		if v, ok := c.env[x.Name]; ok {
+			if os.Getenv("WV_DEBUG") != "" && x.Name == "destinations" {
+				fmt.Fprintf(os.Stderr, "ident %s -> %q lv=%v\n%s\n", x.Name, v.T.S, v.LV, debug.Stack())
+			}
 			return v
 		}
 		if strings.HasPrefix(x.Name, "#") {
@@ -272,6 +280,9 @@ func (f *Frame) evalBinary(x EBinary, c *evalCtx) Val {
 	r := f.eval(x.R, c)
 	switch x.Op {
 	case "==", "!=":
+		if os.Getenv("WV_DEBUG") != "" {
+			fmt.Fprintf(os.Stderr, "cmp %q:%s  %q:%s  %#v\n", l.T.S, l.T.Sort, r.T.S, r.T.Sort, x.L)
+		}
 		l, r = f.unifyNil(l, r)
 		var eq Term
 		if l.T.Sort != r.T.Sort {
@@ -699,6 +710,54 @@ func (f *Frame) sliceShift(e Expr, name string, bound []QVar, c *evalCtx) (off T
 			for _, a := range x.Args {
 				if walk(a, nctx) {
 					return true
+				}
+			}
+			// look through spec predicates: the bound variable may be passed as an argument
+			if d := f.un.eng.specFuns[x.Fn]; d != nil && d.Body != nil && !d.Opaque && len(d.Params) == len(x.Args) && ctx.depth < 6 {
+				for ai, a := range x.Args {
+					id, isID := a.(EIdent)
+					if !isID || id.Name != name {
+						continue
+					}
+					env := map[string]Val{}
+					okEnv := true
+					for bi, b := range x.Args {
+						if bi == ai {
+							continue
+						}
+						if mentions(b) {
+							continue // parameters depending on bound variables stay unbound
+						}
+						func() {
+							defer func() {
+								if r := recover(); r != nil {
+									if _, u := r.(unsupported); !u {
+										panic(r)
+									}
+									okEnv = false
+								}
+							}()
+							v := f.eval(b, nctx)
+							if v.T.Sort == "nil" {
+								srt, gt := f.specSort(d.Params[bi].Type)
+								v = Val{T: f.un.u.Zero(srt), Go: gt}
+							}
+							if v.Go == nil && d.Params[bi].Type != "" {
+								if _, gt := f.specSort(d.Params[bi].Type); gt != nil {
+									v.Go = gt
+								}
+							}
+							env[d.Params[bi].Name] = v
+						}()
+					}
+					if !okEnv {
+						continue
+					}
+					sub := &evalCtx{env: env, cur: nctx.cur, old: nctx.old, depth: ctx.depth + 1}
+					if o, ok2 := f.sliceShift(d.Body, d.Params[ai].Name, []QVar{{Name: d.Params[ai].Name}}, sub); ok2 {
+						off, ok = o, true
+						return true
+					}
 				}
 			}
 		case EField:
